@@ -143,7 +143,7 @@ def doFindTypeByFields (U : Universe) (w : World) (s : State) (names : List Str)
 
 /-- `EventGenerator.generate` against a shared context: the START qnames in document order -/
 def serialize (U : Universe) (s : State) (toks : List Tok) : State × Except Err (List Str) :=
-  serWalk (fun s c p => doBuild U s c p) toks s [] []
+  serWalk U (fun s c p => doBuild U s c p) toks s [] []
 
 inductive Op
   | build (c : ClassId) (pns : Option Str)
